@@ -291,7 +291,7 @@ theorem param_roundtrip_proof (k : Str) (d : List (Str × Str)) (hk : isToken k 
   rw [hmap2] at hfold
   simp only [List.nil_append] at hfold
   unfold parseHeader
-  simp only [hpp, hraw, hgrp, List.any_nil, Bool.false_eq_true, if_false, List.foldlM_nil]
+  simp only [hpp, hraw, hgrp, mixedConts, List.any_nil, Bool.false_eq_true, if_false, List.foldlM_nil]
   rw [hfold]
   rfl
 
